@@ -16,7 +16,8 @@
   the elastic constants allowed by the stated hypotheses.
 -/
 import TfelVerif.C21.Lemmas
-import TfelVerif.C21.Gen
+import TfelVerif.C21.GenModuli
+import TfelVerif.C21.GenIso
 import TfelVerif.C21.PropsModuli
 
 namespace TfelVerif.C21.Props
